@@ -89,7 +89,9 @@ Predict(i, scaled) ==
   /\ UNCHANGED <<rows, fed, nsets, lastSet>>
 
 \* set_pva: overwrite the latest state in the buffers and in the public row
-SetPva(vdz) ==
+\* `how` records where the supplied state comes from (a new state, the current one with position/velocity changed,
+\* exactly get_pva()); the specification treats them alike: whatever is supplied becomes a new base
+SetPva(vdz, how) ==
   /\ nsets < MaxSets
   /\ LET b == nsets + 1
          r == Row(b, <<>>, IF ~WithAlt /\ FixedSet THEN TRUE ELSE vdz, b, FALSE)
@@ -97,7 +99,7 @@ SetPva(vdz) ==
         /\ buf' = [buf EXCEPT ![n] = r]
   /\ nsets' = nsets + 1 /\ lastSet' = n
   /\ ret' = <<>>
-  /\ hist' = Append(hist, <<"S", vdz>>)
+  /\ hist' = Append(hist, <<"S", vdz, how>>)
   /\ UNCHANGED <<cap, fed, oob>>
 
 \* get_pva / get_time
@@ -109,7 +111,7 @@ Get ==
 Bounded == Len(hist) < MaxDepth
 IntegrateAct == Bounded /\ \E k \in 0..N : Integrate(k)
 PredictAct == Bounded /\ \E i \in 1..N, sc \in BOOLEAN : Predict(i, sc)
-SetPvaAct == Bounded /\ \E v \in BOOLEAN : SetPva(v)
+SetPvaAct == Bounded /\ \E v \in BOOLEAN, how \in {"new", "keepatt", "same"} : SetPva(v, how)
 GetAct == Bounded /\ Get
 Next == IntegrateAct \/ PredictAct \/ SetPvaAct \/ GetAct
 
